@@ -15,14 +15,27 @@ Space  : all ordered pairs of operand shapes (7 base dimensions, 6 derived,
          {scalar, array}^2 x the ten binary operations, and per lattice
          dimension (both construction routes) unary -, abs, the four powers
          and in_units to every lattice dimension.
+         Fourth wave: BUNDLES - the list-of-quantities constructor
+         ArrayQuantity([q1, q2, ...], units=...) as a further way in which
+         quantities are combined (domains/w4_c11.py): every list of length
+         1..2 over {6 dimensions (thorough 14) x magnitudes {0.0, -0.0, 3, -2,
+         1e-20 (thorough: nan, inf, 1e300)}, bare 0, bare 0.0, plain 2.5} and
+         every list of length 3 (thorough: and 4) over {dimensions x {0.0, 3},
+         bare 0}, each x units= {absent, every dimension}; every accepted
+         bundle is read back element by element, converted to every dimension
+         and added to a unit quantity of every dimension.
 Oracle : the same operation on (SI magnitude, exponent vector) pairs; IEEE
-         semantics for nan/inf (a result that must be nan is nan).
+         semantics for nan/inf (a result that must be nan is nan).  Bundles:
+         non-zero quantities of two dimensions (or of a dimension other than
+         units=) must raise the units error; an accepted bundle has the
+         dimension of its non-zero elements and their SI magnitudes.
 """
 import itertools
 import operator
 
 from ..runner import Result
 from ..domains import w3_c11 as W3
+from ..domains import w4_c11 as W4
 
 LEVEL = 'exploration'
 SHAPES = ['m', 'kg', 's', 'A', 'K', 'mol', 'cd', 'N', 'J', 'Pa', 'J/mol',
@@ -47,6 +60,7 @@ LATTICE = {t: [n for n, _, _ in W3.lattice(t)] for t in ('quick', 'thorough')}
 LAT_EXPS = dict((n, e) for n, e, _ in W3.lattice('thorough'))
 LAT_FACTORS = dict((n, f) for n, _, f in W3.lattice('thorough'))
 assert set(LATTICE['quick']) <= set(LATTICE['thorough'])
+assert W4.ALL_DIMS == [x for x in SHAPES if not x.startswith('#')]
 BINOPS = [('==', operator.eq), ('!=', operator.ne), ('<', operator.lt),
           ('<=', operator.le), ('>', operator.gt), ('>=', operator.ge),
           ('+', operator.add), ('-', operator.sub), ('*', operator.mul),
@@ -58,21 +72,35 @@ BOUND = {t: '%d shapes^2 x %d magnitudes^2 (incl. %s) x %d forms^2 x %d binary '
             'all ordered pairs (unit text vs base-unit arithmetic) x %d '
             'magnitudes^2 x %d forms^2 x %d binary operations, and per lattice '
             'dimension x 2 construction routes x %d magnitudes x %d forms: '
-            'unary -, abs, 4 powers, conversion to every lattice dimension'
+            'unary -, abs, 4 powers, conversion to every lattice dimension; '
+            'bundles ArrayQuantity([...], units=): %d lists (length 1..2 over '
+            '%d element tokens, length %s over %d) x %d units= choices = %d '
+            'constructor calls, every accepted bundle x (each element read '
+            'back, conversion to and addition of a unit quantity of each of '
+            '%d dimensions)'
             % (len(SHAPES), len(MAGS_TIER[t]),
                ', '.join(repr(x) for x in W3.NONFINITE[t]), len(FORMS),
                len(BINOPS), len(LATTICE[t]), len(W3.LATTICE_MAGS),
-               len(W3.LATTICE_FORMS), len(BINOPS), len(MAGS_TIER[t]), len(FORMS))
+               len(W3.LATTICE_FORMS), len(BINOPS), len(MAGS_TIER[t]), len(FORMS),
+               W4.count(t)[0], len(W4.alphabet(t, 'full')),
+               '3' if t == 'quick' else '3 (and 4 over the 6 quick dimensions)',
+               len(W4.alphabet(t, 'small3')), len(W4.kwargs_of(t)),
+               W4.count(t)[1], len(W4.DIMS[t]))
          for t in ('quick', 'thorough')}
 RULE = ('full product of the stated operand alphabets; a case is non-trivial '
         'when the two operands have different dimensions, or one is a plain '
         'number, or the magnitudes are equal / zero / negative / non-finite '
         '(the shortcuts visible in the guards); every lattice case is '
         'non-trivial (two different fractional dimensions must be refused, '
-        'one dimension built by two routes must be accepted); cases the statement leaves open (a zero-VALUED '
+        'one dimension built by two routes must be accepted); a bundle case '
+        'is non-trivial when the list (with units=) names more than one '
+        'dimension or holds a zero-valued, bare, plain or non-finite element; '
+        'cases the statement leaves open (a zero-VALUED '
         'quantity of another dimension, division by zero, exponentiation by a '
-        'quantity, fractional power of a negative value) are counted, not '
-        'judged')
+        'quantity, fractional power of a negative value, a list without any '
+        'quantity) are counted, not judged; a bundle with a zero-valued '
+        'quantity of another dimension may be refused or accepted, but an '
+        'accepted one is judged (dimension of the non-zero elements)')
 ASSUMPTIONS = ['numpy broadcasting semantics for array operands',
                'IEEE-754 semantics of Python floats / numpy for nan and inf '
                'define "the same operation on the SI magnitudes"; two nan '
@@ -80,7 +108,12 @@ ASSUMPTIONS = ['numpy broadcasting semantics for array operands',
                'lattice exponents are multiples of 1/8, exact in binary '
                'floating point, so equality of dimensions is exact for them',
                'the internal SI representation (value, exponent vector) is '
-               'read through .value/.units.exps (._units for arrays)']
+               'read through .value/.units.exps (._units for arrays)',
+               'the bundle constructor keeps no state between calls (each '
+               'list is one case; a witness is one list + units= + the probe)',
+               'a plain non-zero number next to a quantity in a bundle may be '
+               'refused with UnitsError, TypeError or ValueError (the statement '
+               'names the units error only for operators and conversion)']
 MANIFEST = dict(
     technique='exhaustive product of operand shapes x magnitudes x forms x '
               'operations vs arithmetic on (SI magnitude, exponent vector)',
@@ -93,12 +126,24 @@ MANIFEST = dict(
          'exponent dimensions m^a s^b (55 in thorough) is enumerated in all '
          'ordered pairs, one operand built from unit text and the other by '
          'arithmetic on base units, under the same operators, powers and '
-         'conversions.',
+         'conversions. The list-of-quantities constructor ArrayQuantity([...], '
+         'units=) is enumerated over all lists of length <= 2 of a 33-token '
+         'element alphabet (6 dimensions x 5 magnitudes incl. 0.0, -0.0, '
+         '1e-20; bare 0 / 0.0; plain 2.5) and all lists of length 3 over 13 '
+         'tokens, each with units= absent or any of the 6 dimensions '
+         '(thorough: 14 dimensions, nan / inf / 1e300, length 4): lists with '
+         'non-zero quantities of two dimensions must raise the units error, '
+         'accepted bundles must keep the dimension and SI magnitudes of '
+         'their non-zero elements and still refuse conversion / addition '
+         'across dimensions.',
     note='Magnitudes come from an 8-value alphabet (9 in thorough); lattice '
          'pairs use two finite magnitudes and no array with a zero element; '
          'chains of inexactly cancelling powers are run on the 14 named '
          'shapes only, not on the lattice; numpy scalars as plain '
-         'operands and arrays of rank > 1 are not covered.',
+         'operands and arrays of rank > 1 are not covered. Bundles hold '
+         'scalar quantities and numbers only (no ArrayQuantity as an '
+         'element, no tuple / generator container), are at most 3 long in '
+         'quick, and enter the operator space only through + and in_units.',
     ref='5/C11')
 
 
@@ -373,6 +418,120 @@ def run_unary(R, shape, only=None, tier='thorough', lat=False):
                                     mag, shape, form, target, want, got), case)
 
 
+def run_bundle(R, tokens, kw, dims, only=None):
+    """Fourth wave.  ONE list handed to ArrayQuantity(list[, units=kw]);
+    tokens spell the elements (domains/w4_c11.py).  Judged: the construction
+    itself ('build'); then, if a bundle exists and was accepted: each element
+    read back ('item:i'), conversion to ('conv:X') and addition of a unit
+    quantity of ('add:X') every dimension X of `dims`.
+    only: name of the single probe to run (replay); 'build' is always run."""
+    import numpy as np
+    from pgradd.Units import eval_qty, ArrayQuantity
+    from pgradd.Error import UnitsError
+    elems = [W4.parse(t) for t in tokens]
+    verdict, cls, wdims = W4.expect(elems, kw)
+    vals = np.array(W4.si_values(elems), dtype=float)
+    pre = 'bundle:units=:' if kw is not None else 'bundle:'
+    text = 'ArrayQuantity([%s]%s)' % (', '.join(tokens),
+                                      ', units=%r' % kw if kw is not None else '')
+
+    def wit(check):
+        return dict(kind='bundle', items=list(tokens), units=kw, check=check)
+
+    R.evals += 1
+    if verdict == 'unjudged':
+        R.outcomes['unjudged(statement open)'] += 1
+        return
+    if W4.nontrivial(elems, kw):
+        R.nontrivial += 1
+    data = [(m if d.startswith('#') else eval_qty(d) * m) for d, m in elems]
+    b = None
+    try:
+        with np.errstate(all='ignore'):
+            b = ArrayQuantity(data, units=kw) if kw is not None else ArrayQuantity(data)
+        got = ('val',) + (observe(b) if isinstance(b, ArrayQuantity) else (b, None))
+    except UnitsError:
+        got = ('UnitsError',)
+    except Exception as ex:     # noqa
+        got = ('EXC:' + type(ex).__name__,)
+    dim = None
+    if verdict == 'refused':
+        want = ('refused',)
+        ok = got[0] in ('UnitsError', 'EXC:TypeError', 'EXC:ValueError')
+    elif verdict == 'UnitsError':
+        want = ('UnitsError',)
+        ok = got[0] == 'UnitsError'
+    elif verdict == 'val':
+        want = ('val', vals, EXPS[wdims])
+        ok = got[0] == 'val' and same(got[1:], want[1:])
+        dim = wdims
+    else:       # open: may be refused; an accepted bundle is judged
+        want = ('UnitsError, or val', vals, sorted(wdims))
+        if got[0] == 'UnitsError':
+            R.outcomes['bundle:%s:refused (statement open)' % cls] += 1
+            return
+        ok = False
+        for d in sorted(wdims):
+            if got[0] == 'val' and same(got[1:], (vals, EXPS[d])):
+                ok, dim = True, d
+    R.outcomes['bundle:%s:%s' % (cls, 'ok' if ok else 'bad')] += 1
+    if not ok:
+        what = want[0] + '->' + got[0]
+        if got[0] == 'val' and want[0] != 'refused' and want[0] != 'UnitsError':
+            # an accepted bundle that is not the one demanded: say how
+            exps_ok = got[2] is not None and any(
+                all(abs(x - y) <= 1e-9 for x, y in zip(got[2], EXPS[d]))
+                for d in ([wdims] if verdict == 'val' else sorted(wdims)))
+            what = 'dimension-changed' if not exps_ok else 'magnitudes-changed'
+        R.violation('%s%s:%s' % (pre, cls, what),
+                    '%s: expected %r, got %r' % (text, want, got), wit('build'))
+        return
+    if got[0] != 'val':
+        return
+    # the accepted bundle as an operand
+    e = EXPS[dim]
+    probes = [('item:%d' % i, None) for i in range(len(tokens))]
+    probes += [('%s:%s' % (k, x), x) for x in dims for k in ('conv', 'add')]
+    for name, x in probes:
+        if only is not None and only != name:
+            continue
+        R.evals += 1
+        R.nontrivial += 1
+        kind = name.split(':')[0]
+        try:
+            if kind == 'item':
+                i = int(name.split(':')[1])
+                want = ('val', float(vals[i]), e)
+                with np.errstate(all='ignore'):
+                    g = ('val',) + observe(b[i])
+            elif kind == 'conv':
+                want = ('val', vals, None) if EXPS[x] == e else ('UnitsError',)
+                v = b.in_units(x)
+                g = ('val', v, None) if not hasattr(v, 'units') and \
+                    not hasattr(v, '_units') else ('val',) + observe(v)
+            else:
+                with np.errstate(all='ignore'):
+                    try:
+                        want = ('val',) + ref_binop('+', operator.add, (vals, e),
+                                                    (1.0, EXPS[x]))
+                    except WantUnitsError:
+                        want = ('UnitsError',)
+                    except Open:
+                        R.outcomes['unjudged(statement open)'] += 1
+                        continue
+                    g = ('val',) + observe(b + eval_qty(x) * 1.0)
+        except UnitsError:
+            g = ('UnitsError',)
+        except Exception as ex:     # noqa
+            g = ('EXC:' + type(ex).__name__,)
+        ok = g[0] == want[0] and (g[0] != 'val' or same(g[1:], want[1:]))
+        R.outcomes['bundle:%s:%s' % (kind, 'ok' if ok else 'bad')] += 1
+        if not ok:
+            R.violation('%s%s:%s->%s' % (pre, kind, want[0], g[0]),
+                        '%s then %s: expected %r, got %r' % (text, name, want, g),
+                        wit(name))
+
+
 def shards(tier, seed):
     out = []
     for sa in SHAPES:
@@ -386,6 +545,8 @@ def shards(tier, seed):
         out.append(('latpair', s))
     for s in LATTICE[tier]:
         out.append(('latunary', s))
+    # fourth wave: bundles, one shard per family and first element
+    out.extend(W4.shards(tier))
     return out
 
 
@@ -398,6 +559,11 @@ def run_shard(shard, tier):
     elif shard[0] == 'latpair':
         for sb in LATTICE[tier]:
             run_pair(R, shard[1], sb, tier=tier, lat=True)
+    elif shard[0] == 'bundle':
+        for tokens in W4.lists_of(tier, shard[1], shard[2]):
+            for kw in W4.kwargs_of(tier):
+                run_bundle(R, tokens, kw, W4.DIMS[tier])
+        R.sample(dict(bundle=[shard[2], '0.0 s', '3.0 s'], units=None), limit=1)
     else:
         run_unary(R, shard[1], tier=tier, lat=True)
     return R
@@ -408,7 +574,11 @@ def replay(w):
     # the quick space is a subset (same case dictionaries)
     R = Result()
     lat = w.get('fam') == 'lat'
-    if w['kind'] == 'bin':
+    if w['kind'] == 'bundle':
+        # one list, its units= argument and one probe; the constructor keeps
+        # no state, so this is the whole history
+        run_bundle(R, w['items'], w['units'], W4.ALL_DIMS, only=w['check'])
+    elif w['kind'] == 'bin':
         run_pair(R, w['a'][0], w['b'][0], only=w, lat=lat)
     else:
         run_unary(R, w['a'][0], only=w, lat=lat)
